@@ -360,7 +360,11 @@ def rerun_concrete(fn, inputs, args=()):
 def native_of(fn):
     """Instance.native for harnesses whose outcome class does not depend on uninterpreted-function values"""
     def native(inputs, *args):
-        out, failed = rerun_concrete(fn, inputs, args)
+        from symx import core
+        try:
+            out, failed = rerun_concrete(fn, inputs, args)
+        except core.AssumptionFailed as e:
+            return ['concrete re-run: inputs of this path violate an assumption of the harness', str(e)]
         if failed:
             return ['concrete re-run failed', failed]
         return out
